@@ -675,10 +675,8 @@ func (c *Ctx) rulesLevelImport(prop string, s *Slashing) {
 	actionOf := map[string]*ssa.Global{}
 	for _, w := range wants {
 		for _, fh := range c.fetchHelpers(s, w.state) {
-			for _, ci := range Calls(fh, func(ci ssa.CallInstruction) bool { return ci.Common().StaticCallee() == s.StoreFetch }) {
-				if _, g, why := keyBuild(fh, ci.Common().Args[2]); why == "" {
-					actionOf[w.kind] = g
-				}
+			if _, g, why := c.fetchKey(s, fh); why == "" {
+				actionOf[w.kind] = g
 			}
 		}
 	}
